@@ -52,10 +52,16 @@ REQUIRED = [
     "control_state_changed",
     "control_tag_visible",
     "control_ws_delivery",
+    "hist_stale_password_refused",
+    "hist_current_password_accepted",
+    "hist_password_changes",
 ]
 RULE = (
     "case = one HTTP request (route instance, method, credential form, XSRF form, Sec-Fetch-Site) or one /updates "
-    "WebSocket handshake (credential form, Origin) against the live application in canonical state; stage A covers every "
+    "WebSocket handshake (credential form, Origin) against the live application in canonical state, or one run-time "
+    "history of 3-6 web_password changes (plain / other plain / argon2 hash / empty = new random token / an earlier one; via "
+    "options or the HTTP API) each followed by cookie-less requests presenting the current, every previously valid and "
+    "never-valid passwords via Bearer, ?token= and the login form; stage A covers every "
     "route x method with every value of each dimension (others at their most permissive), then the full product is "
     "walked in a seeded permutation (completely in the thorough tier if time allows); distinct = distinct (route "
     "pattern, method, credential form, XSRF form, Sec-Fetch-Site) tuple; non-trivial = the policy demands something of "
@@ -67,6 +73,8 @@ ASSUMPTIONS = [
     "405 instead of 403 is accepted for an unauthenticated request only if the route's handler class does not implement the method (DESIGN 3.5)",
     "Sec-Fetch-Site values other than same-origin/none/same-site/cross-site and non-browser credential placements (token in a form body, lower-case 'bearer') are not judged",
     "the state digest covers view flows, options, events, replay queue, websocket connections and the token; files on disk are not observed",
+    "session cookies issued under an earlier web_password are not judged: the property demands a valid session cookie and does not tie sessions to the password (observed behaviour is recorded)",
+    "a currently valid password being refused is recorded, not a violation (the property only states refusals)",
     "refusal of an authenticated cross-site / token-less request may use any error status (>=400); 403 is demanded only of unauthenticated requests",
 ]
 LEVEL_TEXT = (
@@ -155,7 +163,8 @@ def classify(item, status):
 
 
 class Plan:
-    def __init__(self, rig, seed):
+    def __init__(self, rig, seed, tier="quick"):
+        self.n_hist = 32 if tier == "quick" else 640
         routes, self.skipped_static = rig.routes()
         self.routes = routes
         self.instances = []  # (route_idx, path, primary)
@@ -228,10 +237,13 @@ class Plan:
         return self._perm
 
     def item(self, k):
-        """k-th global item: websocket handshakes, stage A, then the permuted full product."""
+        """k-th global item: websocket handshakes, password-rotation histories, stage A, then the permuted full product."""
         if k < len(self.ws_items):
             return dict(self.ws_items[k]), "ws"
         k -= len(self.ws_items)
+        if k < self.n_hist:
+            return {"hist": True, "n": k}, "hist"
+        k -= self.n_hist
         if k < len(self.stage_a):
             ri, p, m, c, x, s = self.stage_a[k]
             return {"route": ri, "path": p, "method": m, "cred": c, "xsrf": x, "sfs": pol.SFS[s][0], "sfs_class": pol.SFS[s][1]}, "A"
@@ -417,6 +429,173 @@ async def do_ws(ctx, rig, plan, item):
     return resp.status
 
 
+# ---------------------------------------------------------------------------------------------
+# runtime histories of web_password changes on the one running application
+# ---------------------------------------------------------------------------------------------
+HIST_TARGETS = [("GET", "/flows"), ("GET", "/state.json"), ("GET", "/"), ("GET", "/options.json"), ("POST", "/clear"), ("GET", "/events")]
+
+
+async def do_history(ctx, rig):
+    """The operator changes `web_password` at run time (plain -> other plain -> argon2 hash -> empty = fresh random
+    token -> an earlier one again ...), through options.update or through the authenticated HTTP API.  After every
+    change, requests WITHOUT a session cookie present the current, every previously valid (and successfully used),
+    and never-valid passwords through every credential channel (Bearer header, ?token=, login form POST).
+    Demanded (property: no valid password/token and no valid session cookie -> 403, nothing disclosed or changed):
+    a password that does not match the CURRENT web_password is refused.  Acceptance of the current password is a
+    positive control only.  Session cookies issued under an earlier password are not judged (the property calls
+    for a *valid session cookie*; the code does not tie sessions to the password) -- their fate is recorded."""
+    import argon2
+
+    r = ctx.rng
+    m = rig.master
+    alphabet = "abcdefghijklmnopqrstuvwxyz0123456789-_."
+
+    def fresh():
+        return "pw" + "".join(r.choice(alphabet) for _ in range(r.randint(5, 14)))
+
+    def current_token_from_url():
+        # public API: the URL mitmweb prints for the operator contains the generated token
+        q = urllib.parse.urlparse(m.web_url).query
+        return urllib.parse.parse_qs(q).get("token", [""])[0]
+
+    used = []  # passwords that were valid at some time AND authenticated successfully (what a cache could remember)
+    never = [fresh(), rig.token[:-1] + ("0" if rig.token[-1] != "0" else "1")]
+    plains = []
+    current = rig.token
+    n_phases = r.randint(3, 6)
+    kinds = ["initial-token"]
+    nreq = 0
+    old_cookie = None
+
+    async def probe(secret, label):
+        nonlocal nreq, old_cookie
+        channel = r.choice(["bearer", "query", "form"])
+        now = int(time.time())
+        xh, xq, xc, xf = pol.build_xsrf("valid-v1-header", cookie_name=rig.xsrf_cookie_name, now=now, rng=r)
+        headers = list(xh) + [("Cookie", "; ".join(f"{k}={v}" for k, v in xc))]
+        body = None
+        if channel == "form":
+            method, target = "POST", "/"
+            headers.append(("Content-Type", "application/x-www-form-urlencoded"))
+            body = urllib.parse.urlencode({"token": secret}).encode()
+        else:
+            method, target = r.choice(HIST_TARGETS)
+            if channel == "bearer":
+                headers.append(("Authorization", f"Bearer {secret}"))
+            else:
+                target += "?" + urllib.parse.urlencode({"token": secret})
+            if method == "POST":
+                body = b""
+        before = rig.digest()
+        try:
+            resp = await rig.request(method, target, headers, body)
+        except (asyncio.TimeoutError, ValueError, ConnectionError):
+            ctx.count("inconclusive_cases")
+            return
+        nreq += 1
+        changed = rig.digest() != before
+        valid_now = secret == current and secret != ""
+        got_cookie = [v for v in resp.header_all("set-cookie") if rig.auth_cookie_name in v]
+        wit = {
+            "password_history": list(kinds),
+            "presented": label,
+            "channel": channel,
+            "request": f"{method} {target.split('?')[0]}",
+            "status": resp.status,
+            "session_cookie_issued": bool(got_cookie),
+        }
+        ctx.seen("statuses", f"hist-{label}:{resp.status}")
+        if valid_now:
+            ctx.count("control")
+            if resp.status != 403:
+                ctx.count("hist_current_password_accepted")
+                if secret not in used:
+                    used.append(secret)
+                if got_cookie and old_cookie is None:
+                    old_cookie = got_cookie[0].split(";")[0]
+            else:
+                ctx.seen("hist_current_password_refused", f"{kinds[-1]} via {channel}")
+            return
+        ctx.count("hist_stale_password_refused" if label.startswith("previously-valid") else "hist_invalid_password_refused")
+        if resp.status != 403:
+            ctx.violation("password-not-matching-current-web_password-accepted", dict(wit, body=short(resp.body, 160)))
+        if tag_in(resp.raw) or tag_in(resp.body):
+            ctx.violation("unauth-discloses-tagged-data", dict(wit, body=short(resp.body, 200)))
+        if got_cookie:
+            ctx.violation("unauth-receives-session-cookie", wit)
+        if changed:
+            ctx.violation("unauth-changes-state", wit)
+
+    async def round_of_probes(extra=()):
+        await probe(current, "current")
+        cands = [(u, "previously-valid-and-used") for u in used if u != current]
+        cands += [(p, "previously-valid-unused") for p in plains if p != current and p not in used]
+        cands += [(n, "never-valid") for n in never] + list(extra)
+        r.shuffle(cands)
+        for secret, label in cands[: r.randint(2, 5)]:
+            await probe(secret, label)
+        if r.random() < 0.5:
+            await probe(current, "current")
+        if old_cookie is not None and r.random() < 0.3:
+            try:
+                resp = await rig.request("GET", "/state.json", [("Cookie", old_cookie)], None)
+                ctx.seen("session_cookie_issued_under_earlier_password", f"{kinds[-1]}:{resp.status}")
+            except (asyncio.TimeoutError, ValueError, ConnectionError):
+                pass
+
+    await round_of_probes()
+    for _ in range(n_phases):
+        kind = r.choice(["plain", "plain", "argon2", "empty", "revisit"])
+        if kind == "revisit" and not plains:
+            kind = "plain"
+        extra = []
+        if kind == "plain":
+            value = secret = fresh()
+            plains.append(secret)
+        elif kind == "revisit":
+            value = secret = r.choice(plains)
+        elif kind == "argon2":
+            secret = fresh()
+            plains.append(secret)
+            salt = bytes(r.getrandbits(8) for _ in range(16))
+            value = argon2.PasswordHasher(time_cost=1, memory_cost=8, parallelism=1).hash(secret, salt=salt)
+            extra.append((value, "never-valid-the-hash-itself"))
+        else:
+            value, secret = "", None
+        via_api = r.random() < 0.5
+        done = False
+        if via_api:
+            now = int(time.time())
+            ch, cq, cc = pol.build_cred("cookie-valid", token=rig.token, secret=rig.cookie_secret, cookie_name=rig.auth_cookie_name, now=now, rng=r)
+            xh, xq, xc, xf = pol.build_xsrf("valid-v1-header", cookie_name=rig.xsrf_cookie_name, now=now, rng=r)
+            headers = ch + xh + [("Cookie", "; ".join(f"{k}={v}" for k, v in cc + xc)), ("Content-Type", "application/json")]
+            try:
+                resp = await rig.request("PUT", "/options", headers, json.dumps({"web_password": value}).encode())
+                done = resp.status == 200
+            except (asyncio.TimeoutError, ValueError, ConnectionError):
+                done = False
+        if not done:
+            via_api = False
+            m.options.update(web_password=value)
+        await settle()
+        if secret is None:
+            secret = current_token_from_url()
+            if not secret:
+                raise Inconclusive("cannot learn the generated token from web_url")
+        current = secret
+        kinds.append(kind + ("/api" if via_api else "/options"))
+        ctx.count("hist_password_changes")
+        await round_of_probes(extra)
+    # back to the canonical configuration
+    await settle()
+    rig.reset()
+    await settle()
+    rig.reset()
+    if rig.digest() != rig.canonical:
+        raise Inconclusive("harness could not restore the canonical state after a password history")
+    return kinds, nreq
+
+
 async def settle():
     for _ in range(5):
         await asyncio.sleep(0)
@@ -428,7 +607,7 @@ async def amain(ctx):
     await rig.start("".join(init.choice("0123456789abcdef") for _ in range(32)))
     rig.canonical_parts = {k: json.dumps(v, default=repr, sort_keys=True) for k, v in rig.state().items()}
     try:
-        plan = Plan(rig, ctx.seed)
+        plan = Plan(rig, ctx.seed, ctx.tier)
         ctx.extra["routes"] = len(plan.routes)
         ctx.extra["route_instances"] = len(plan.instances)
         ctx.extra["static_routes_skipped"] = plan.skipped_static
@@ -444,6 +623,11 @@ async def amain(ctx):
             if item is None:
                 done_all = True
                 break
+            if item.get("hist"):
+                kinds, nreq = await do_history(ctx, rig)
+                ctx.count("stage_hist")
+                ctx.case(("hist",) + tuple(kinds), nontrivial=True, sample={"password_history": kinds, "requests": nreq})
+                continue
             if item.get("ws"):
                 status = await do_ws(ctx, rig, plan, item)
                 demanded = not pol.CRED_VALID[item["cred"]]
